@@ -67,7 +67,7 @@ def H(unit, module, name, shape, props, tier='quick', **kw):
 
 
 HARNESSES = [
-    H('U-DET', 'detect', 'detect_order_and_totality', 'complete', ['C09', 'C10', 'C12', 'C04'],
+    H('U-DET', 'detect', 'detect_order_and_totality', 'complete', ['C09', 'C10', 'C12', 'C04', 'C05'],
       bounds='all 3^4 trial outcomes', fns=['detect::detect_format'], timeout=300, min_covers=4,
       assumes=['the four input_matches trials are stubbed: each returns any of Ok(true)/Ok(false)/Err']),
     H('U-DET', 'input', 'detect_trials_get_rewound_reader', 'bounded-size', ['C09', 'C12'],
@@ -380,7 +380,7 @@ PROPERTIES = {
                     'capture_up_to_size never captures beyond max(len, size); FusedReader drops the captured prefix at its first EOF; ChunkReader holds exactly stream[start..delivered] '
                     'and performs one inner read per read; decoders consume exactly one character\'s units; Utf8Encoder holds back at most 3 bytes. Verus proves the same footprints for every size: '
                     'capture_up_to_size never beyond max(len, size) (U-CAP-V); Chunker invariant captured == stream[cut_point..] after every event, i.e. memory = bytes since the current document start (U-CHK-V); '
-                    'Utf8Encoder remainder <= 3 bytes and only when the caller buffer is full (U-ENC-V).',
+                    'Utf8Encoder remainder <= 3 bytes and only when the caller buffer is full (U-ENC-V). Detection: the only trial that buffers a whole reader (TOML, up to 2 MiB: U-TML-V) runs after the three streaming trials and only if all of them said no (detect_order_and_totality, all 3^4 outcomes).',
         assumptions=['BufReader 8 KiB read-ahead', 'libyaml look-ahead and Chunker::next one-document deferral (so the k+2 constant is not proved)'],
         not_covered=['heap measurements', 'first-document-after-one-read for json/msgpack transcode loops (needs the real parsers)']),
     'C06': dict(
